@@ -2,20 +2,23 @@
 
 What is observed
 ----------------
-`to_openql` / `OpenQLFactoryManager().construct` run UNCHANGED.  Every call they make on
-`openql.Kernel` / `openql.Program` objects is recorded
+`to_openql` / `OpenQLFactoryManager().construct` run UNCHANGED on the library's own (real, offline) OpenQL
+platform.  Every call they make on `openql.Kernel` / `openql.Program` objects is recorded
 
-* "real" mode: the methods of the real SWIG classes `openql.Kernel` / `openql.Program` are wrapped in
-  this process (the wrapper logs the call and then calls the real method on the real platform);
-* "fake" mode (fallback, only when the real OpenQL raised during the export, e.g. its `duplicate kernel
-  name` check): recording classes are put in place of the module attributes `openql.Kernel` /
-  `openql.Program` (the platform object stays the real one) so that the order / repetition clauses can
-  still be evaluated on the factory code.
+* "real" recording: the methods of the real SWIG classes `openql.Kernel` / `openql.Program` are wrapped in
+  this process (the wrapper logs the call, then calls the real method).  Used for all dedicated inputs and a
+  fixed fraction of the enumerated / random ones; these programs are also compiled to cQASM.
+* "hybrid" recording (the bulk; the real `Program.add_program` costs ~7 ms per call): real wrapped
+  `openql.Kernel` (so every gate is still validated by the real platform) + a recording stand-in put in place of
+  the module attribute `openql.Program`, which applies OpenQL's `duplicate kernel name` rule.  On every "real"
+  input the outcome of the hybrid recording is compared with the real one.
+* "fake" recording (fallback only): after OpenQL (or the rule above) raised, the export is repeated with plain
+  recording stand-ins for both classes so that the order / repetition clauses can still be evaluated.
 
-From the recorded calls the *executed gate sequence* of the returned program is derived with a small
-model of `openql.Program` (add_kernel appends a kernel by reference, add_program appends the kernels the
-other program holds at that moment; a program executes its kernels in order).  In real mode this model
-is cross-checked against the cQASM that the real `Program.compile()` writes.
+From the recorded calls the *executed gate sequence* of the returned program is derived with a small model of
+`openql.Program` (add_kernel appends a kernel by reference, add_program appends the kernels the other program
+holds at that moment; a program executes its kernels in order).  The model is probed on the real library and,
+on every "real" input, cross-checked against the cQASM that the real `Program.compile()` writes.
 
 Oracle (independent of the code under test)
 -------------------------------------------
@@ -46,7 +49,7 @@ from bounded import common  # noqa: E402
 
 PROP = "C15"
 HERE = os.path.dirname(os.path.abspath(__file__))
-BUILD_DIR = os.path.abspath(os.path.join(HERE, "..", "build", "c15_openql"))
+BUILD_DIR = os.path.abspath(os.path.join(HERE, "..", "build", "c15_openql_%d" % os.getpid()))  # private to this run; forked workers inherit it
 NPROC = 16
 
 # --------------------------------------------------------------------------------------------------
@@ -142,6 +145,8 @@ def fill(circ, items):
 def build(program):
     circ = lib()["DeclarativeCircuit"]()
     fill(circ, program["items"])
+    if program.get("apply_modifiers"):
+        circ = circ.apply_modifiers()   # unrolled repetitions: graphs with MultiRelationLink nodes, all counts 1
     return circ
 
 
@@ -226,6 +231,7 @@ class Recorder:
         self.order = []       # creation order: ("K"|"P", name)
         self.events = []      # readable trace
         self.raised = None    # (what, meth, message)
+        self.collision = None  # first kernel-name collision inside one program: "same-kernel-object" | "distinct-kernel-objects"
 
     def init(self, what, obj, args, kwargs):
         name = args[0] if args else kwargs.get("name")
@@ -259,15 +265,17 @@ class Recorder:
             rec["unmodelled"].append(meth)
 
     def _add(self, rec, incoming, meth):
-        if self.strict:
-            have = {k["name"] for k in rec["kernels"]}
-            for k in incoming:
-                if k["name"] in have:
+        have = {k["name"]: k for k in rec["kernels"]}
+        for k in incoming:
+            if k["name"] in have:
+                if self.collision is None:
+                    self.collision = "same-kernel-object" if have[k["name"]] is k else "distinct-kernel-objects"
+                if self.strict:
                     msg = "Unknown error: duplicate kernel name: %s" % k["name"]
                     if self.raised is None:
                         self.raised = ("P", meth, msg)
                     raise RuntimeError(msg)
-                have.add(k["name"])
+            have.setdefault(k["name"], k)
         rec["kernels"].extend(incoming)
 
     def executed(self, prog_obj):
@@ -434,6 +442,8 @@ def quiet_fds():
 def setup_process():
     if _STATE["ready"]:
         return
+    import warnings
+    warnings.simplefilter("ignore")   # the library warns (OperationNotFoundWarning, ...) while building / unrolling; irrelevant here
     L = lib()
     with quiet_fds():
         L["PlatformManager"].openql_platform()          # the library's own platform singleton (real OpenQL)
@@ -527,10 +537,10 @@ def classify_sequence(program, circ, required, observed):
     root = circ.circuit_structure
     nested = has_sub(program["items"])
     check = program.get("check", "general")
-    if check in ("table", "unsupported", "wait-fractional"):
+    if check == "unsupported" and collections.Counter(observed) - collections.Counter(required):
+        return "C15:unsupported:%s:not-omitted" % program["focus"]
+    if check in ("table", "wait-fractional"):
         kind = program["focus"]
-        if check == "unsupported":
-            return "C15:unsupported:%s:not-omitted" % kind
         if kind == "Wait" and len(required) == 1 and len(observed) == 1 and observed[0][:2] == required[0][:2]:
             if not float(required[0][2]).is_integer():
                 return "C15:wait:duration:non-integer-duration-not-kept"
@@ -557,12 +567,13 @@ def classify_raise(program, rec, exc):
     msg = str(exc).split("\n")[0]
     check = program.get("check", "general")
     if "duplicate kernel name" in msg:
-        # which kernel objects carry the colliding name?
-        dup = msg.split("duplicate kernel name:")[-1].strip()
-        objs = [k for k in rec.kernels.values() if k["name"] == dup]
-        if len(objs) <= 1:
+        # the kernel that collides is either the very same kernel (its sub-program is added once per repetition)
+        # or another kernel whose name was derived from an equal sequence of class names
+        if rec.collision == "same-kernel-object":
             return "C15:construct:raises:duplicate-kernel-name:same-sub-program-added-again(repetition>=2)"
-        return "C15:construct:raises:duplicate-kernel-name:distinct-circuits-with-equal-kind-sequence"
+        if rec.collision == "distinct-kernel-objects":
+            return "C15:construct:raises:duplicate-kernel-name:distinct-circuits-with-equal-kind-sequence"
+        return "C15:construct:raises:duplicate-kernel-name:unexplained"
     if check == "unsupported":
         return "C15:unsupported:%s:raises" % program["focus"]
     if check in ("table", "wait-fractional"):
@@ -605,7 +616,7 @@ def evaluate(program, primary="real", do_names=True, do_cqasm=True, do_cross=Tru
         res["skipped"] = "build raised %s" % type(exc).__name__
         return res
     root = circ.circuit_structure
-    if flat_sorted(shape(root)) != flat_sorted(spec_shape(program["items"])):
+    if not program.get("apply_modifiers") and flat_sorted(shape(root)) != flat_sorted(spec_shape(program["items"])):
         res["probe_bad"].append("own walker does not list every added item exactly once at its level")
     required = image(root)
 
@@ -764,6 +775,8 @@ def r_program(seed, index):
     prog = {"items": rand_items(rng, 0, nq, rng.choice([1, 2, 3])), "circuit_id": None, "as_structure": rng.random() < 0.3, "check": "general"}
     if rng.random() < 0.3:
         prog["circuit_id"] = "cid_%d" % rng.randrange(1000)
+    if rng.random() < 0.1:
+        prog["apply_modifiers"] = True
     return prog
 
 
@@ -806,6 +819,21 @@ def t_space():
 # --------------------------------------------------------------------------------------------------
 # workers
 # --------------------------------------------------------------------------------------------------
+def qubits_of(items):
+    out = set()
+    for it in items:
+        out |= qubits_of(it["sub"]) if "sub" in it else set(it["q"])
+    return out
+
+
+def wsize(f):
+    """smaller = better witness: low repetition counts, few items, few qubits, observed on the real openql, plain calling convention"""
+    p = f["witness"]["program"]
+    return (max_reps(p["items"]), len(json.dumps(p["items"])), len(qubits_of(p["items"])),
+            f["witness"].get("recording", MODE_NAME["real"]) != MODE_NAME["real"], bool(p.get("as_structure")), p.get("circuit_id") is not None,
+            json.dumps(p, sort_keys=True))  # total order -> the chosen witness does not depend on worker scheduling
+
+
 def phash(program):
     return hashlib.md5(json.dumps(program, sort_keys=True).encode()).hexdigest()[:16]
 
@@ -820,7 +848,7 @@ def run_chunk(task):
         progs = (r_program(task["seed"], i) for i in range(task["lo"], task["hi"]))
     else:
         progs = iter(t_space()[task["lo"]:task["hi"]])
-    agg = {"kind": kind, "evals": collections.Counter(), "failures": {}, "skipped": collections.Counter(), "samples": [],
+    agg = {"kind": kind, "lo": task["lo"], "evals": collections.Counter(), "failures": {}, "skipped": collections.Counter(), "samples": [],
            "nontrivial": set(), "probe_bad": collections.Counter(), "inputs": 0, "real": 0}
     for n, prog in enumerate(progs):
         idx = task["lo"] + n
@@ -844,7 +872,7 @@ def run_chunk(task):
             agg["nontrivial"].add(phash(prog))
         for f in r["failures"]:
             old = agg["failures"].get(f["key"])
-            if old is None or len(json.dumps(f["witness"]["program"])) < len(json.dumps(old["witness"]["program"])):
+            if old is None or wsize(f) < wsize(old):
                 agg["failures"][f["key"]] = f
         if r["sample"] is not None and len(agg["samples"]) < 1 and (n % 97 == 5 or kind == "T"):
             agg["samples"].append(r["sample"])
@@ -863,6 +891,7 @@ def names_child(path):
     for prog in progs:
         rec, _, _ = export(build(prog), prog, "fake")
         out.append(rec.names())
+    shutil.rmtree(BUILD_DIR, ignore_errors=True)
     sys.stdout.write("C15NAMES " + json.dumps(out) + "\n")
 
 
@@ -873,27 +902,42 @@ def xproc_programs(seed):
     return progs
 
 
-def xproc_names(seed, res):
+def xproc_start(seed):
+    """two fresh interpreters (PYTHONHASHSEED 1 and 2) export the same build programs; started early, collected late"""
     progs = xproc_programs(seed)
     os.makedirs(BUILD_DIR, exist_ok=True)
-    path = os.path.join(BUILD_DIR, "names_programs.json")
+    path = os.path.join(BUILD_DIR, "names_programs_%d.json" % os.getpid())
     with open(path, "w") as fh:
         json.dump(progs, fh)
-    runs = []
+    procs = []
     for hs in ("1", "2"):
         env = dict(os.environ, PYTHONHASHSEED=hs, C15_NAMES_CHILD=path)
-        cp = subprocess.run([sys.executable, os.path.abspath(__file__)], env=env, capture_output=True, text=True, timeout=300)
-        line = [ln for ln in cp.stdout.splitlines() if ln.startswith("C15NAMES ")]
-        if cp.returncode != 0 or not line:
-            res.skip("names child process failed (PYTHONHASHSEED=%s): %s" % (hs, cp.stderr[-300:]))
+        procs.append((hs, subprocess.Popen([sys.executable, os.path.abspath(__file__)], env=env, stdout=subprocess.PIPE,
+                                           stderr=subprocess.PIPE, text=True)))
+    return progs, procs
+
+
+def xproc_finish(started, res):
+    progs, procs = started
+    runs = []
+    for hs, proc in procs:
+        try:
+            so, se = proc.communicate(timeout=900)
+        except subprocess.TimeoutExpired:
+            proc.kill()
+            so, se = "", "timeout"
+        line = [ln for ln in so.splitlines() if ln.startswith("C15NAMES ")]
+        if proc.returncode != 0 or not line:
+            res.skip("names child process failed (PYTHONHASHSEED=%s): %s" % (hs, se[-300:]))
             return 0
         runs.append(json.loads(line[0][len("C15NAMES "):]))
     n = 0
     for prog, a, b in zip(progs, runs[0], runs[1]):
         n += 1
         if a != b:
-            res.fail("C15:names:differs-between-interpreter-runs", "same circuit -> same program and kernel names (two processes, PYTHONHASHSEED 1 / 2)",
-                     "OpenQLCircuitFactoryManager.construct_uuid", {"program": prog}, b, a, {"program": prog, "key": "C15:names:differs-between-interpreter-runs"})
+            key = "C15:names:differs-between-interpreter-runs"
+            res.fail(key, "same circuit -> same program and kernel names (two interpreter runs, PYTHONHASHSEED 1 / 2)",
+                     "OpenQLCircuitFactoryManager.construct_uuid", {"program": prog}, b, a, {"program": prog, "key": key})
     return n
 
 
@@ -904,7 +948,8 @@ def platform_probes(res):
     setup_process()
     L = lib()
     try:
-        ins = L["PlatformManager"].read_platform_config()["instructions"]
+        with quiet_fds():
+            ins = L["PlatformManager"].read_platform_config()["instructions"]
         missing = [n for n in NATIVE if n not in ins]
         res.probes.append({"assumption": "every instruction name of the oracle table except the built-in 'prepz' is a native instruction of the platform configuration the library uses: %s" % NATIVE,
                            "ok": not missing, "missing": missing})
@@ -946,9 +991,9 @@ def main():
     alphabet = e_alphabet(tier)
     n_leaf = sum("op" in a for a in alphabet)
     e_total = e_space_size(len(alphabet), maxlen)
-    r_total = 8000 if quick else 100000
-    names_every = 8 if quick else 4
-    e_real_every, r_real_every = 24, 10
+    r_total = 6000 if quick else 100000
+    names_every = 8
+    e_real_every, r_real_every = (32 if quick else 48), 10
     t_total = len(t_space())
 
     tasks = []
@@ -962,6 +1007,7 @@ def main():
                       "names_every": names_every, "real_every": e_real_every})
 
     os.makedirs(BUILD_DIR, exist_ok=True)
+    started = xproc_start(args.seed)
     ctx = mp.get_context("fork")
     evals = collections.Counter(); inputs = collections.Counter(); real_inputs = collections.Counter()
     nontriv = set(); probe_bad = collections.Counter()
@@ -980,13 +1026,12 @@ def main():
                 probe_bad[b] += n
             for key, f in agg["failures"].items():
                 old = res.failures.get(key)
-                if old is None or len(json.dumps(f["witness"]["program"])) < len(json.dumps(old["witness"]["program"])):
+                if old is None or wsize(f) < wsize(old):
                     res.failures[key] = f
-            if len(samples[k]) < 3:
-                samples[k].extend(agg["samples"])
+            samples[k].extend((agg["lo"], smp) for smp in agg["samples"])
 
     platform_probes(res)
-    n_x = xproc_names(args.seed, res)
+    n_x = xproc_finish(started, res)
 
     def ev(clause, kinds="TER"):
         return sum(n for (k, c), n in evals.items() if c == clause and k in kinds)
@@ -1004,14 +1049,15 @@ def main():
         "E: ALL sequences of 1..%d items over an alphabet of %d items = %d programs, enumerated completely: %d leaf items (%s) and %d sub-circuit items "
         "(%d bodies: 1-2 leaves over %s, plus 3 bodies containing a sub-sub-circuit; x repetition counts %s).  "
         "R: %d seeded random programs (1..8 items per level, nesting depth <= 3, repetition counts 1..4, all 26 kinds, 2..5 qubits, explicit "
-        "FOLLOWED_BY/JOINED_START/JOINED_END relations to earlier items, optional circuit_id, IDeclarativeCircuit or bare structure as argument).  "
+        "FOLLOWED_BY/JOINED_START/JOINED_END relations to earlier items, optional circuit_id, IDeclarativeCircuit or bare structure as argument, 10%% exported after "
+        "apply_modifiers()).  "
         "Non-trivial: contains a sub-circuit or at least two supported operations.  The property's space is infinite, hence exhaustive=false although E is complete."
         % (sum(real_inputs.values()), e_real_every, r_real_every, t_total, maxlen, len(alphabet), e_total, n_leaf,
            ", ".join("%s%s" % (a["op"], tuple(a["q"])) for a in alphabet[:n_leaf]), len(alphabet) - n_leaf,
            (len(alphabet) - n_leaf) // (2 if quick else 3), "{Rym90(0), Hadamard(1), Rx180ef(0)}" if quick else "{Rym90(0), Hadamard(1), Rx180ef(0), Reset(2)}",
            "{1,2}" if quick else "{1,2,3}", r_total))
     for k in "TER":
-        res.samples.extend(samples[k][:3])
+        res.samples.extend(smp for _, smp in sorted(samples[k], key=lambda x: x[0])[:3])
     res.stand_ins = [
         {"function": "OpenQLCircuitFactoryManager.construct (intrf_openql_factory.py:62-99) with the four operation factories",
          "contract": "executed gate sequence (recorded Kernel calls, kernels in Program order) == in-order image of the own BFS listing; covers the clauses 'in listing order', "
@@ -1040,6 +1086,7 @@ def main():
     res.probes.append({"assumption": "all planned inputs were evaluated (T %d, E %d, R %d)" % (t_total, e_total, r_total),
                        "ok": inputs["E"] == e_total and inputs["R"] == r_total and inputs["T"] == t_total, "inputs": dict(inputs), "real_recording": dict(real_inputs)})
     shutil.rmtree(BUILD_DIR, ignore_errors=True)
+    res.failures = dict(sorted(res.failures.items()))
     out = res.write(args.out)
     print("C15 bounded: %d evaluations, %d distinct non-trivial, %d failure keys, %.1fs" % (out["evaluations"], out["distinct_nontrivial"], len(out["failures"]), out["wall_s"]))
     for f in out["failures"]:
@@ -1059,7 +1106,7 @@ def replay(path):
         res = common.Result(PROP)
         global xproc_programs
         xproc_programs = lambda seed: [program]  # noqa: E731
-        xproc_names(0, res)
+        xproc_finish(xproc_start(0), res)
         found = list(res.failures.values())
     else:
         setup_process()
